@@ -3,9 +3,9 @@
 //! {embedded, sidecar, remote+embedded} x definitions from kit::defs (small-scope generator).
 //! The sub-products enumerated are named in the evidence (`spaces`); nothing is sampled.
 //!
-//! Mutants caught (tools/mutant_run.sh H <diff> C03 quick):
-//!   /verif/mutants/C03-usercbor-drop-last-byte.diff (see the report at the end of the session)
-//!   /verif/mutants/C03-title-dropped-when-compressed.diff
+//! Mutants caught (tools/mutant_run.sh H <diff> C03 quick; each adds a key class that never occurs on the unchanged tree):
+//!   /verif/mutants/C03-title-only-in-v2-claims.diff  -> `title asset=*` (19 cases, sub-product B, claim v1)
+//!   /verif/mutants/C03-jpeg-segment-65535.diff       -> `sign-panic mode=embedded asset=jpeg*` (definitions with >= 64 KiB payloads)
 
 use c2pa::{Builder, BuilderIntent, DigitalSourceType, Reader};
 use kit::{
@@ -318,8 +318,10 @@ fn run_case_inner(c: &Case) -> Outcome {
     Outcome { class, failures, compared: true }
 }
 
+static STATS: std::sync::OnceLock<defs::KeyStats> = std::sync::OnceLock::new();
+
 fn execute(run: &Run, name: &str, cases: &[Case]) {
-    let stats = defs::KeyStats::default();
+    let stats = STATS.get_or_init(Default::default);
     run.space(name, cases.len() as u64, true);
     let t0 = run.elapsed();
     par::for_each(cases, |c| {
@@ -331,11 +333,9 @@ fn execute(run: &Run, name: &str, cases: &[Case]) {
         }
         for (k, w) in o.failures {
             // key: what fails first, then the asset family and definition-independent discriminators
-            stats.add(&k, &format!("{}: {w}", c.id()));
-            run.violation(format!("{k} asset={}", c.asset), format!("{}: {w}", c.id()), c.to_json());
+            stats.violation(run, 6, format!("{k} asset={}", c.asset), format!("{}: {w}", c.id()), c.to_json());
         }
     });
-    stats.dump(name);
     if std::env::var("VERIF_DEBUG").is_ok() {
         eprintln!("C03 {name}: {} cases in {:.1}s", cases.len(), run.elapsed() - t0);
     }
@@ -439,10 +439,10 @@ pub fn run(run: &Run, replay: Option<&Value>) {
         // T2: all definitions on one format per handler family, crossed with version (and with compression on jpeg)
         let mut v = vec![];
         for n in ["jpeg", "png", "gif", "wav", "tiff", "svg", "mp3", "jxl", "mp4"] { for ver in [1u8, 2] { for comp in [false, true] { for d in defs::all_defs() {
-            if comp && n != "jpeg" { continue; }
+            if comp && (n != "jpeg" || ver != 2) { continue; }
             v.push(Case { compress: comp, ver, def: d, ..Case::base(n) });
         }}}}
-        execute(run, "T2: {jpeg,png,gif,wav,tiff,svg,mp3,jxl,mp4} x version(2) x all 1152 definitions, plus the same compressed on jpeg", &v);
+        execute(run, "T2: {jpeg,png,gif,wav,tiff,svg,mp3,jxl,mp4} x version(2) x all 1152 definitions, plus compressed on jpeg (claim v2)", &v);
         // T3: trust
         let mut v = vec![];
         for n in &names { for a in &algs { for ver in [1u8, 2] { for m in &modes {
@@ -456,6 +456,7 @@ pub fn run(run: &Run, replay: Option<&Value>) {
         }}}
         execute(run, "T4: base asset(13) x {cbor,json} x every payload string length in 0..=300, 65400..=65700", &v);
     }
+    STATS.get_or_init(Default::default).finish(run, "C03");
     let c = Case::base("jpeg");
     run.sample(json!({"case": c.to_json(), "definition": c.def.definition(2, Some("sha256")), "outcome": run_case(&c).class}));
     let c = Case { alg: "ps384".into(), hash: "sha512".into(), compress: true, ver: 1, mode: "sidecar".into(), ..Case::base("mp4") };
